@@ -233,7 +233,11 @@ impl C20 {
             "cw20.AllAllowances" | "cw20.AllSpenderAllowances" => {
                 let by_owner = name == "cw20.AllAllowances";
                 let hub = mk_addr("hub");
-                let mut bals: Vec<(String, u128)> = pick.iter().map(|x| (x.clone(), 1000)).collect();
+                // every third account never held a token (no balance record): granting needs none
+                let mut bals: Vec<(String, u128)> = pick.iter().enumerate().filter(|(i, _)| i % 3 != 1).map(|(_, x)| (x.clone(), 1000)).collect();
+                if pick.len() > 1 {
+                    h.out.count("allowance_owners_without_a_balance_record");
+                }
                 bals.push((hub.clone(), 1000));
                 let t = c.new_cw20_admin(&bals);
                 let mut expected = vec![];
@@ -745,7 +749,7 @@ impl Monitor for C20 {
         (LISTINGS.len() * SIZES.len()) as u64 + tier.pick(160, 60_000)
     }
     fn mandatory(&self) -> Vec<&'static str> {
-        let mut v = vec!["walks_completed", "walks_with_default_limit", "walks_with_limit_above_max", "walks_with_limit_zero", "states_with_more_than_30_items", "states_with_no_items", "listings_with_expired_entries_interleaved", "listings_after_removals", "listings_after_migration_from_pre_0_14", "listings_with_a_contiguous_run_of_30_or_more_expired_entries", "walks_continued_from_a_removed_item", "migrations_with_lapsed_grants_in_the_table"];
+        let mut v = vec!["walks_completed", "walks_with_default_limit", "walks_with_limit_above_max", "walks_with_limit_zero", "states_with_more_than_30_items", "states_with_no_items", "listings_with_expired_entries_interleaved", "listings_after_removals", "listings_after_migration_from_pre_0_14", "listings_with_a_contiguous_run_of_30_or_more_expired_entries", "walks_continued_from_a_removed_item", "migrations_with_lapsed_grants_in_the_table", "allowance_owners_without_a_balance_record"];
         v.extend([
             "listing_cw20.AllAccounts",
             "listing_cw20.AllAllowances",
